@@ -198,6 +198,7 @@ func ruleC14(c *Ctx, r *Report) {
 	exc := loadExceptions()
 	// ---- R1 value independence
 	r.Floor("C14-R1", 1, "selective pass-through return")
+	crossLineStateRule(c, r, p.Zone, "C14-R1", "the keep-or-redact decision can depend on earlier lines instead of the names on the literal's own path")
 	nSel := 0
 	for _, s := range p.sinks(p.Zone) {
 		if !s.Raw || !strings.HasPrefix(s.Just, "J7") {
